@@ -47,6 +47,12 @@ pub struct GenCfg {
     pub interrupts: bool,
     pub unused_funcs: bool,
     pub protos: bool,
+    /// probability (per mille) that a helper is forced to be `void f()` without parameters
+    pub simple_helper_permille: u32,
+    /// functions may call themselves (only for checks that never execute the program)
+    pub self_calls: bool,
+    /// probability (per mille) that a helper is placed in a ROM bank other than 0
+    pub banked_permille: u32,
     pub excl: Excl,
 }
 
@@ -78,6 +84,9 @@ impl Default for GenCfg {
             interrupts: false,
             unused_funcs: false,
             protos: false,
+            simple_helper_permille: 0,
+            self_calls: false,
+            banked_permille: 0,
             excl: Excl::default(),
         }
     }
@@ -113,6 +122,10 @@ struct FnCtx {
     dest16: bool,
     /// index of this function among helpers (callable: helpers[..idx])
     idx: usize,
+    /// ROM bank of the function under construction
+    bank: u32,
+    /// the function under construction is inline (it cannot call itself)
+    inline: bool,
 }
 
 pub struct ProgGen<'g, 'r> {
@@ -124,6 +137,8 @@ pub struct ProgGen<'g, 'r> {
     pub labels: Vec<&'static str>,
     /// the previous function ended with a statement that leaves the flags describing this global
     handover: Option<String>,
+    /// helpers that contain a call to themselves
+    self_callers: HashSet<usize>,
 }
 
 const ARR_SIZES: [usize; 5] = [2, 3, 4, 8, 16];
@@ -134,7 +149,7 @@ fn is8(t: Ty) -> bool {
 
 impl<'g, 'r> ProgGen<'g, 'r> {
     pub fn new(g: &'g mut G<'r>, cfg: GenCfg) -> Self {
-        ProgGen { g, cfg, globals: vec![], helpers: vec![], name_ctr: 0, labels: vec![], handover: None }
+        ProgGen { g, cfg, globals: vec![], helpers: vec![], name_ctr: 0, labels: vec![], handover: None, self_callers: HashSet::new() }
     }
 
     fn label(&mut self, l: &'static str) {
@@ -531,8 +546,9 @@ impl<'g, 'r> ProgGen<'g, 'r> {
 
     fn callable(&self, fc: &FnCtx, want_value: bool) -> Vec<usize> {
         let lim = if fc.is_main { self.helpers.len() } else { fc.idx.min(self.helpers.len()) };
+        // code of a bank other than 0 may only call functions of its own bank
         (0..lim)
-            .filter(|i| !self.helpers[*i].interrupt && (!want_value || self.helpers[*i].ret.is_some()))
+            .filter(|i| !self.helpers[*i].interrupt && (!want_value || self.helpers[*i].ret.is_some()) && (fc.bank == 0 || self.helpers[*i].bank == fc.bank))
             .collect()
     }
 
@@ -1306,7 +1322,34 @@ impl<'g, 'r> ProgGen<'g, 'r> {
                 *g.pick(&[0, 1, 11, 12, 40])
             }
         };
-        match self.g.below(15) {
+        match self.g.below(17) {
+            15 | 16 if !ord.is_empty() => {
+                // a branch (else part, or last case of a switch) that consists of inline assembler
+                // only: nothing may fall into it, nothing may skip it
+                self.label("asm-only-branch");
+                let v = self.g.pick(&ord).clone();
+                let t = self.g.pick(&ord).clone();
+                let h = hv(self.g);
+                let h = if h == "hv3" { "hv1".to_string() } else { h };
+                let asm = Stmt::Asm(format!("INC {}", h), Some(2));
+                let k = self.g.range(0, 200) as i32;
+                if self.g.chance(1, 2) {
+                    vec![Stmt::If(
+                        Expr::var(&v),
+                        Box::new(Stmt::Block(vec![Stmt::Expr(Expr::assign(LValue::Var(t), Expr::lit(k)))])),
+                        Some(Box::new(Stmt::Block(vec![asm]))),
+                    )]
+                } else {
+                    vec![Stmt::Switch(
+                        Expr::var(&v),
+                        vec![
+                            Case { labels: vec![1], body: vec![Stmt::Expr(Expr::assign(LValue::Var(t), Expr::lit(k))), Stmt::Break] },
+                            Case { labels: vec![2], body: vec![asm, Stmt::Break] },
+                        ],
+                        None,
+                    )]
+                }
+            }
             12 | 13 => {
                 // an explicit read on its own: whatever follows starts with an ordinary load
                 self.label("lone-load");
@@ -1414,7 +1457,7 @@ impl<'g, 'r> ProgGen<'g, 'r> {
 
     fn stmt(&mut self, fc: &mut FnCtx) -> Vec<Stmt> {
         let deep = fc.nest >= self.cfg.max_nest;
-        let can_call = self.cfg.calls && !self.callable(fc, false).is_empty();
+        let can_call = self.cfg.calls && (!self.callable(fc, false).is_empty() || (self.cfg.self_calls && !fc.is_main));
         let w = [
             50u32,                                                            // assignment family
             if deep { 0 } else { 14 },                                        // if
@@ -1431,6 +1474,7 @@ impl<'g, 'r> ProgGen<'g, 'r> {
             if self.cfg.opt_stress { 14 } else { 0 },                         // optimizer stress pattern
             if can_call { 4 } else { 0 },                                     // flag-setting statement, call, test
             3,                                                                // flag-setting statement, test
+            if self.cfg.calls && !self.callable(fc, true).is_empty() { 4 } else { 0 }, // result of a call next to a small constant
         ];
         match self.g.weighted(&w) {
             0 => vec![self.assign_stmt(fc)],
@@ -1450,6 +1494,31 @@ impl<'g, 'r> ProgGen<'g, 'r> {
             }
             2 => self.loop_stmt(fc),
             3 => vec![self.switch_stmt(fc)],
+            4 if self.cfg.self_calls && !fc.is_main && !fc.inline && self.g.chance(1, 3) => {
+                // direct recursion, guarded by a condition (never executed: for checks that only
+                // look at what is emitted)
+                self.label("self-call");
+                self.self_callers.insert(fc.idx);
+                Self::new_expr_ctx(fc);
+                let c = self.condition(fc, 1);
+                let ptys: Vec<Ty> = fc.params.iter().map(|p| p.ty).collect();
+                let mut args = vec![];
+                for t in ptys {
+                    args.push(if t == Ty::Ptr { Expr::lit(0) } else { self.rvalue(fc, t, 1) });
+                }
+                let me = Stmt::Expr(Expr::Call(format!("f{}", fc.idx), args));
+                if self.g.chance(1, 2) && !self.callable(fc, false).is_empty() {
+                    // a further call after the self-call
+                    Self::new_expr_ctx(fc);
+                    let cl = self.callable(fc, false);
+                    let fi = *self.g.pick(&cl);
+                    let other = Stmt::Expr(self.call_expr(fc, fi, 1));
+                    vec![Stmt::If(c, Box::new(Stmt::Block(vec![me, other])), None)]
+                } else {
+                    vec![Stmt::If(c, Box::new(me), None)]
+                }
+            }
+            4 if self.callable(fc, false).is_empty() => vec![self.assign_stmt(fc)],
             4 => {
                 self.label("call-stmt");
                 Self::new_expr_ctx(fc);
@@ -1508,7 +1577,8 @@ impl<'g, 'r> ProgGen<'g, 'r> {
             11 => self.hw_stmt(fc),
             12 => self.stress_pattern(fc),
             13 => self.flags_across_call(fc, true),
-            _ => self.flags_across_call(fc, false),
+            14 => self.flags_across_call(fc, false),
+            _ => self.call_then_constant(fc),
         }
     }
 
@@ -1520,6 +1590,59 @@ impl<'g, 'r> ProgGen<'g, 'r> {
         let c = if with_call { self.callable(fc, false) } else { vec![] };
         if ops.is_empty() || (with_call && c.is_empty()) {
             return vec![self.assign_stmt(fc)];
+        }
+        if !with_call && self.g.chance(1, 4) {
+            // neighbouring elements of one array (or the two bytes of one object) are different
+            // operands: flags that describe ar[i] say nothing about ar[j]
+            let arrs: Vec<(String, Ty, usize)> = self.arrays(fc, None, true).into_iter().filter(|(_, _, n)| *n >= 2).collect();
+            let srcs: Vec<String> = ops.iter().filter(|(_, t)| is8(*t)).map(|(n, _)| n.clone()).collect();
+            if !arrs.is_empty() && !srcs.is_empty() {
+                self.label("flags-of-neighbour-element");
+                let (ar, _, n) = self.g.pick(&arrs).clone();
+                let i = self.g.below(n) as i32;
+                let mut j = self.g.below(n) as i32;
+                if j == i {
+                    j = (i + 1) % n as i32;
+                }
+                let ei = LValue::Index(ar.clone(), Box::new(Expr::lit(i)));
+                let ej = Expr::Lv(LValue::Index(ar.clone(), Box::new(Expr::lit(j))));
+                let s1 = match self.g.below(3) {
+                    0 => Expr::assign(ei, Expr::var(&self.g.pick(&srcs).clone())),
+                    1 => Expr::IncDec(true, self.g.chance(1, 2), ei),
+                    _ => Expr::IncDec(false, self.g.chance(1, 2), ei),
+                };
+                let cond = match self.g.below(3) {
+                    0 => ej,
+                    1 => Expr::bin(BinOp::Eq, ej, Expr::lit(0)),
+                    _ => Expr::bin(BinOp::Ne, ej, Expr::lit(0)),
+                };
+                let t = self.g.pick(&srcs).clone();
+                let k1 = self.g.range(0, 200) as i32;
+                let k2 = self.g.range(0, 200) as i32;
+                // the tested element may be reached through a register holding its index
+                let reg = if self.g.chance(1, 2) { "X" } else { "Y" };
+                if self.g.chance(1, 3) && !fc.protected.contains(reg) {
+                    let via = Expr::Lv(LValue::Index(ar.clone(), Box::new(Expr::var(reg))));
+                    let cond = if self.g.chance(1, 2) { via } else { Expr::bin(BinOp::Ne, via, Expr::lit(0)) };
+                    return vec![
+                        Stmt::Expr(Expr::assign(LValue::Var(reg.into()), Expr::lit(j))),
+                        Stmt::Expr(s1),
+                        Stmt::If(
+                            cond,
+                            Box::new(Stmt::Expr(Expr::assign(LValue::Var(t.clone()), Expr::lit(k1)))),
+                            Some(Box::new(Stmt::Expr(Expr::assign(LValue::Var(t), Expr::lit(k2))))),
+                        ),
+                    ];
+                }
+                return vec![
+                    Stmt::Expr(s1),
+                    Stmt::If(
+                        cond,
+                        Box::new(Stmt::Expr(Expr::assign(LValue::Var(t.clone()), Expr::lit(k1)))),
+                        Some(Box::new(Stmt::Expr(Expr::assign(LValue::Var(t), Expr::lit(k2))))),
+                    ),
+                ];
+            }
         }
         self.label(if with_call { "flags-across-call" } else { "flags-then-test" });
         let (o, oty) = self.g.pick(&ops).clone();
@@ -1549,6 +1672,33 @@ impl<'g, 'r> ProgGen<'g, 'r> {
         v
     }
 
+    /// `v = f(); w = k;` / `if (f() == k) w = k;`: what the optimizer knows about A at the end of the
+    /// callee (inlined or not) must not be used for the constant that follows
+    fn call_then_constant(&mut self, fc: &mut FnCtx) -> Vec<Stmt> {
+        let c = self.callable(fc, true);
+        let tg: Vec<String> = self.visible_scalars(fc, Some(true), true).into_iter().map(|(n, _)| n).filter(|n| n != "X" && n != "Y" && !fc.protected.contains(n)).collect();
+        if c.is_empty() || tg.len() < 2 {
+            return vec![self.assign_stmt(fc)];
+        }
+        self.label("call-then-constant");
+        Self::new_expr_ctx(fc);
+        let fi = *self.g.pick(&c);
+        let call = self.call_expr(fc, fi, 1);
+        let k = self.g.below(3) as i32;
+        let v = self.g.pick(&tg).clone();
+        let w = tg.iter().find(|n| **n != v).cloned().unwrap();
+        match self.g.below(4) {
+            0 => vec![Stmt::Expr(Expr::assign(LValue::Var(v), call)), Stmt::Expr(Expr::assign(LValue::Var(w), Expr::lit(k)))],
+            1 => vec![Stmt::If(call, Box::new(Stmt::Expr(Expr::assign(LValue::Var(w), Expr::lit(k)))), None)],
+            2 => vec![Stmt::If(Expr::Un(UnOp::LNot, Box::new(call)), Box::new(Stmt::Expr(Expr::assign(LValue::Var(w), Expr::lit(k)))), None)],
+            _ => vec![Stmt::If(
+                Expr::bin(if self.g.chance(1, 2) { BinOp::Eq } else { BinOp::Ne }, call, Expr::lit(k)),
+                Box::new(Stmt::Expr(Expr::assign(LValue::Var(w), Expr::lit(k)))),
+                None,
+            )],
+        }
+    }
+
     fn body_block(&mut self, fc: &mut FnCtx) -> Stmt {
         fc.nest += 1;
         let n = 1 + self.g.below(3);
@@ -1575,7 +1725,82 @@ impl<'g, 'r> ProgGen<'g, 'r> {
         let arrs = self.arrays(fc, Some(true), true);
         let px = fc.protected.contains("X");
         let py = fc.protected.contains("Y");
-        match self.g.below(14) {
+        match self.g.below(20) {
+            14 | 15 | 16 => {
+                // the same constant assigned twice with something in between that changes the flags
+                // but not A, then a flag test of the second destination
+                let kk = *self.g.pick(&[0, 0, 1, 2, 8, 128, 255]);
+                let wide: Vec<(String, Ty)> = self.visible_scalars(fc, Some(false), true).into_iter().filter(|(n, _)| !fc.protected.contains(n)).collect();
+                let middle = match self.g.below(6) {
+                    0 | 1 if !wide.is_empty() => {
+                        let (w, _) = self.g.pick(&wide).clone();
+                        Expr::Assign(Some(if self.g.chance(1, 2) { BinOp::Shl } else { BinOp::Shr }), LValue::Var(w), Box::new(Expr::lit(1)))
+                    }
+                    2 if !px => Expr::assign(LValue::Var("X".into()), Expr::var(&b)),
+                    3 if !py => Expr::assign(LValue::Var("Y".into()), Expr::var(&b)),
+                    4 if !wide.is_empty() => Expr::IncDec(self.g.chance(1, 2), false, LValue::Var(self.g.pick(&wide).0.clone())),
+                    _ => Expr::IncDec(self.g.chance(1, 2), false, LValue::Var(b.clone())),
+                };
+                let others: Vec<String> = v8.iter().map(|x| x.0.clone()).filter(|n| *n != a && *n != b).collect();
+                let c = if others.is_empty() { a.clone() } else { self.g.pick(&others).clone() };
+                let cond = match self.g.below(3) {
+                    0 => Expr::var(&c),
+                    1 => Expr::Un(UnOp::LNot, Box::new(Expr::var(&c))),
+                    _ => Expr::bin(BinOp::Ne, Expr::var(&c), Expr::lit(0)),
+                };
+                vec![
+                    Stmt::Expr(Expr::assign(LValue::Var(a.clone()), Expr::lit(kk))),
+                    Stmt::Expr(middle),
+                    Stmt::Expr(Expr::assign(LValue::Var(c.clone()), Expr::lit(kk))),
+                    Stmt::If(cond, Box::new(Stmt::Expr(Expr::assign(LValue::Var(a), Expr::lit(k + 40)))), None),
+                ]
+            }
+            17 | 18 | 19 => {
+                // a variable is read into a register, written from another register, read again
+                // into the first one (a store must invalidate every spelling of its operand)
+                let all: Vec<(String, Ty)> = self.visible_scalars(fc, Some(true), true).into_iter().filter(|(n, _)| n != "X" && n != "Y" && !fc.protected.contains(n)).collect();
+                let (v, _) = if all.is_empty() { (a.clone(), Ty::U8) } else { self.g.pick(&all).clone() };
+                let others: Vec<String> = v8.iter().map(|x| x.0.clone()).filter(|n| *n != v).collect();
+                if others.len() < 2 {
+                    return vec![self.assign_stmt(fc)];
+                }
+                let t1 = self.g.pick(&others).clone();
+                let t2 = others.iter().find(|n| **n != t1).cloned().unwrap_or(t1.clone());
+                let src: Expr = match self.g.below(3) {
+                    0 if !px => Expr::var("X"),
+                    1 if !py => Expr::var("Y"),
+                    _ => Expr::lit(k + 3),
+                };
+                let store = Stmt::Expr(Expr::assign(LValue::Var(v.clone()), src));
+                // (a load whose flags may still be needed is never removed: something that starts
+                // with a load of its own follows)
+                let tail = Stmt::Expr(Expr::assign(LValue::Var(t1.clone()), Expr::lit(k + 5)));
+                match self.g.below(3) {
+                    0 => vec![
+                        Stmt::Expr(Expr::assign(LValue::Var(t1), Expr::var(&v))),
+                        store,
+                        Stmt::Expr(Expr::assign(LValue::Var(t2), Expr::var(&v))),
+                        tail,
+                    ],
+                    1 => vec![Stmt::If(
+                        Expr::bin(*self.g.pick(&[BinOp::Lt, BinOp::Eq, BinOp::Ne]), Expr::var(&v), Expr::lit(10)),
+                        Box::new(Stmt::Block(vec![store, Stmt::Expr(Expr::assign(LValue::Var(t2), Expr::var(&v))), tail])),
+                        None,
+                    )],
+                    _ if !px => vec![
+                        Stmt::Expr(Expr::assign(LValue::Var("X".into()), Expr::var(&v))),
+                        Stmt::Expr(Expr::assign(LValue::Var(t1), Expr::var("X"))),
+                        Stmt::Expr(Expr::assign(LValue::Var(v.clone()), Expr::lit(k + 3))),
+                        Stmt::Expr(Expr::assign(LValue::Var("X".into()), Expr::var(&v))),
+                        Stmt::Expr(Expr::assign(LValue::Var(t2), Expr::var("X"))),
+                    ],
+                    _ => vec![
+                        Stmt::Expr(Expr::assign(LValue::Var(t1), Expr::var(&v))),
+                        store,
+                        Stmt::Expr(Expr::assign(LValue::Var(t2), Expr::var(&v))),
+                    ],
+                }
+            }
             11 | 12 | 13 if !(px && py) => {
                 // a register mirrors a variable, the variable changes in memory, the register is reloaded
                 let all: Vec<(String, Ty)> = self.visible_scalars(fc, None, true).into_iter().filter(|(n, t)| n != "X" && n != "Y" && *t != Ty::Ptr && !fc.protected.contains(n)).collect();
@@ -1680,15 +1905,18 @@ impl<'g, 'r> ProgGen<'g, 'r> {
 
     fn gen_func(&mut self, idx: usize, is_main: bool) -> Func {
         let name = if is_main { "main".to_string() } else { format!("f{}", idx) };
-        let ret = if is_main || self.g.chance(2, 5) {
+        let simple = !is_main && self.cfg.simple_helper_permille > 0 && self.g.chance(self.cfg.simple_helper_permille, 1000);
+        let ret = if is_main || simple || self.g.chance(2, 5) {
             None
         } else if self.cfg.signed && self.g.chance(1, 4) {
             Some(Ty::I8)
         } else {
             Some(Ty::U8)
         };
+        let inline = !is_main && self.cfg.inline_permille > 0 && self.g.chance(self.cfg.inline_permille, 1000);
+        let bank = if !is_main && !inline && self.cfg.banked_permille > 0 && self.g.chance(self.cfg.banked_permille, 1000) { 1 + self.g.below(2) as u32 } else { 0 };
         let mut params = vec![];
-        if !is_main {
+        if !is_main && !simple {
             let np = self.g.weighted(&[3, 4, 3, 1]);
             for i in 0..np {
                 let ty = match self.g.below(8) {
@@ -1718,6 +1946,8 @@ impl<'g, 'r> ProgGen<'g, 'r> {
             in_args: 0,
             dest16: false,
             idx,
+            bank,
+            inline,
         };
         let n = 1 + self.g.below(self.cfg.max_stmts);
         let mut body = self.stmt_list(&mut fc, n);
@@ -1755,11 +1985,23 @@ impl<'g, 'r> ProgGen<'g, 'r> {
         if let Some(t) = ret {
             Self::new_expr_ctx(&mut fc);
             fc.scopes.push(vec![]);
-            // locals declared at the top of the body are out of scope here by construction of
-            // stmt_list (it pops its scope), so the return expression uses params and globals
-            let e = self.rvalue(&mut fc, t, 2);
+            if self.g.chance(1, 4) {
+                // several return paths that end in small constants (what a predicate looks like)
+                self.label("constant-returns");
+                let c = self.condition(&mut fc, 1);
+                let k1 = self.g.below(3) as i32;
+                let k2 = self.g.below(3) as i32;
+                let first_non_decl = body.iter().position(|s| !matches!(s, Stmt::Decl(_))).unwrap_or(body.len());
+                let pos = first_non_decl + self.g.below(body.len() - first_non_decl + 1);
+                body.insert(pos, Stmt::If(c, Box::new(Stmt::Return(Some(Expr::lit(k1)))), None));
+                body.push(Stmt::Return(Some(Expr::lit(k2))));
+            } else {
+                // locals declared at the top of the body are out of scope here by construction of
+                // stmt_list (it pops its scope), so the return expression uses params and globals
+                let e = self.rvalue(&mut fc, t, 2);
+                body.push(Stmt::Return(Some(e)));
+            }
             fc.scopes.pop();
-            body.push(Stmt::Return(Some(e)));
         }
         // what one function leaves in the flags must not be believed at the entry of the next one:
         // the previous function ended with `o--`, this one starts with a test of o
@@ -1793,8 +2035,7 @@ impl<'g, 'r> ProgGen<'g, 'r> {
             body.push(Stmt::Expr(s1));
             self.handover = Some(o);
         }
-        let inline = !is_main && self.cfg.inline_permille > 0 && self.g.chance(self.cfg.inline_permille, 1000);
-        Func { name, ret, params, body, inline, interrupt: false, proto: false }
+        Func { name, ret, params, body, inline, interrupt: false, proto: false, bank }
     }
 
     pub fn program(mut self) -> (Program, Vec<&'static str>) {
@@ -1807,7 +2048,8 @@ impl<'g, 'r> ProgGen<'g, 'r> {
         for i in 0..nh {
             let mut f = self.gen_func(i, false);
             // interrupt handlers: void, no parameters, never called, always in use
-            if self.cfg.interrupts && f.ret.is_none() && f.params.is_empty() && !f.inline && self.g.chance(1, 3) {
+            let calls_itself = self.self_callers.contains(&i);
+            if self.cfg.interrupts && f.ret.is_none() && f.params.is_empty() && !f.inline && f.bank == 0 && !calls_itself && self.g.chance(1, 3) {
                 f.interrupt = true;
                 f.body.retain(|s| !matches!(s, Stmt::Return(_)));
                 self.label("interrupt-handler");
